@@ -10,8 +10,11 @@ namespace LndModel.C19
 
 /-- The HTLC of `amtIn` that `cur` offers to `h.to` over channel `h.chan`:
   * the channel direction `cur → h.to` exists in the graph,
-  * it is enabled (for our own channels availability is decided by the
-    bandwidth hints instead of the gossip flag),
+  * it is enabled.  WEAKENED for channels of our own node (`cur = r.self`): as in
+    lnd, the gossip `disabled` flag is ignored there and availability is decided
+    by the bandwidth hints only; when no hint is known for the channel
+    (`r.bwOf = none`) there is NO availability condition at all (listed under
+    `assumptions` of the check),
   * `amtIn` lies within the direction's min/max HTLC and the capacity,
   * on our own channels it does not exceed the known local bandwidth and the
     outgoing-channel restriction is respected,
